@@ -322,6 +322,10 @@ func cmdCheck(args []string) int {
 			suffix = ""
 		}
 		writeJSON(p, rep)
+		if os.Getenv("GOVC_BRIEF") != "" {
+			fmt.Printf("FAIL %-7s %s\n", r.Status, r.Name)
+			continue
+		}
 		fmt.Printf("VIOLATION property=%s replay=%s obligation=%s (%s: %s)%s\n", *prop, p, r.Name, r.Status, r.Desc, suffix)
 	}
 
